@@ -525,6 +525,12 @@ def trace_values(trace):
             m = re.search(r'/\*\s*(-?\d+)', d)
             if m:
                 d = m.group(1)
+        if isinstance(d, str) and len(d) >= 3 and d[0] == "'" and d[-1] == "'":
+            try:   # character literal as printed by cbmc -> its code
+                import ast
+                d = str(ord(ast.literal_eval(d)))
+            except Exception:
+                pass
         if lhs.startswith('e_'):
             if fn.startswith('contract::') or fn.startswith('__CPROVER') or fn == '':
                 if lhs not in vals:
